@@ -27,6 +27,7 @@ def step (s : St) (w : List String) : St × String :=
   match w with
   | ["new", _, v] => ({ t := .empty, v := v.toNat! }, "ok")
   | ["ver", v] => ({ s with v := v.toNat! }, "ok")
+  | ["layer"] => (s, "ok")
   | ["ins", p, b] =>
     match parsePath p, unhex b with
     | some p, some b =>
